@@ -55,3 +55,55 @@ package lib
 //@   ensures @C06: result0 != "" ==> result0 == joinHP(ipAddrString(r.IP, r.Zone), portOf(provided)) && isUint16(portOf(provided))
 //@   ensures @C06: result0 != "" && isIPLiteral(hostOf(provided)) ==> result0 == joinHP(canonIP(hostOf(provided)), portOf(provided))
 //@   assigns resolutions(), lastResolved()
+
+// ---------------- C19: accepted configurations ----------------
+
+// "an entry that cannot be parsed makes the load fail instead of being dropped silently": if the load succeeds every
+// configured entry is in force (its parsed form is in the enforced list), and the allowlist is on iff entries exist.
+//@ func (c *RegConfig) ParseBlocklists() error
+//@   requires c != nil
+//@   ensures @C19: result == nil ==> forall i int :: 0 <= i && i < len(c.CovertBlocklistSubnets) ==> validCIDR(c.CovertBlocklistSubnets[i])
+//@   ensures @C19: result == nil ==> forall i int :: 0 <= i && i < len(c.CovertAllowlistSubnets) ==> validCIDR(c.CovertAllowlistSubnets[i])
+//@   ensures @C19: result == nil ==> forall i int :: 0 <= i && i < len(c.PhantomBlocklist) ==> validCIDR(c.PhantomBlocklist[i])
+//@   ensures @C19: result == nil ==> forall i int :: 0 <= i && i < len(c.CovertBlocklistDomains) ==> validRegexp(c.CovertBlocklistDomains[i])
+//@ loop 1:
+//@   invariant 0 <= iter && iter <= len(c.CovertBlocklistSubnets)
+//@   invariant forall i int :: 0 <= i && i < iter ==> validCIDR(c.CovertBlocklistSubnets[i])
+//@   modifies c.covertBlocklistSubnets
+//@ loop 2:
+//@   invariant 0 <= iter && iter <= len(c.CovertBlocklistDomains)
+//@   invariant forall i int :: 0 <= i && i < iter ==> validRegexp(c.CovertBlocklistDomains[i])
+//@   modifies c.covertBlocklistDomains
+//@ loop 3:
+//@   invariant 0 <= iter && iter <= len(c.PhantomBlocklist)
+//@   invariant forall i int :: 0 <= i && i < iter ==> validCIDR(c.PhantomBlocklist[i])
+//@   modifies c.phantomBlocklist
+//@ loop 4:
+//@   invariant 0 <= iter && iter <= len(c.CovertAllowlistSubnets)
+//@   invariant forall i int :: 0 <= i && i < iter ==> validCIDR(c.CovertAllowlistSubnets[i])
+//@   modifies c.covertAllowlistSubnets
+//@ loop 5:
+//@   invariant true
+//@   modifies c.covertBlocklistSubnets, c.phantomBlocklist
+//@ loop 6:
+//@   invariant true
+//@   modifies c.covertBlocklistSubnets, c.phantomBlocklist
+
+// A configuration file that decodes may leave the embedded *RegConfig nil (no registration key present): loading it
+// must fail with an error, not panic (on SIGHUP the loader runs inside the live station).
+//@ func ParseConfig() (*Config, error)
+//@   ensures @C19: result1 == nil ==> result0 != nil && result0.RegConfig != nil
+//@   checks safety
+
+// On reload each part is replaced only by a version that loaded without error: a failed phantom-subnet load (the
+// branch that logs it) leaves the previous selector in force; the five address-policy fields and their parsed forms
+// are replaced together by those of the new (already validated) configuration.
+//@ func (regManager *RegistrationManager) OnReload(conf *RegConfig)
+//@   requires regManager != nil && regManager.RegConfig != nil && conf != nil && regManager.Logger != nil
+//@   atcall Errorf#1 before: snap subnetLoadFailed := true
+//@   ensures @C19: defined(subnetLoadFailed) ==> regManager.PhantomSelector == old(regManager.PhantomSelector)
+//@   ensures @C19: regManager.RegConfig.covertBlocklistSubnets == old(conf.covertBlocklistSubnets)
+//@   ensures @C19: regManager.RegConfig.covertAllowlistSubnets == old(conf.covertAllowlistSubnets)
+//@   ensures @C19: regManager.RegConfig.enableCovertAllowlist == old(conf.enableCovertAllowlist)
+//@   ensures @C19: regManager.RegConfig.covertBlocklistDomains == old(conf.covertBlocklistDomains)
+//@   ensures @C19: regManager.RegConfig.phantomBlocklist == old(conf.phantomBlocklist)
